@@ -121,6 +121,24 @@ def scen_2d(cn, mk, lx, ly):
             except Exception as e:
                 if ok:
                     R.fail("2d.item:%s:raised_in_range" % cn, lx=lx, ly=ly, i=i, j=j, exc=repr(e))
+    # Color4 2-D arrays also accept a 4-tuple as the value of a[i, j] (a separate overload): every integer pair
+    if cn.startswith("Color4"):
+        for i in range(-lx - 1, lx + 1):
+            for j in range(-ly - 1, ly + 1):
+                R.ev()
+                R.cls("2d_tuple_valued_store")
+                ok = -lx <= i < lx and -ly <= j < ly
+                b, bm = mk2d(cn, mk, lx, ly)
+                v = mk(70)
+                ex = raises(lambda: b.__setitem__((i, j), (v.r, v.g, v.b, v.a)))
+                if ok:
+                    if ex:
+                        R.fail("2d.setitem(int,int,tuple):%s:raised_in_range" % cn, lx=lx, ly=ly, i=i, j=j, exc=ex)
+                    else:
+                        bm[j % ly][i % lx] = canon(v)
+                elif not ex:
+                    R.fail("2d.setitem(int,int,tuple):%s:no_raise_out_of_range" % cn, lx=lx, ly=ly, i=i, j=j)
+                chk2d(cn, b, bm, "2d.setitem(int,int,tuple):%s:wrong_element" % cn, lx=lx, ly=ly, i=i, j=j)
     xs_full = list(range(-lx - 1, lx + 1)) + list(fwd_slices())
     ys_full = list(range(-ly - 1, ly + 1)) + list(fwd_slices())
     xs_red = list(range(-lx - 1, lx + 1)) + REDUCED
